@@ -21,7 +21,14 @@ STYLES = ["direct", "aliased", "fragment", "variant", "interface"]
 STRATEGIES = [None, "allow", "warn", "deny"]
 
 
-def make_schema(assign, reason_shift=0):
+TYPE_SETS = {
+    # one leaf of every kind the generator has a separate arm for, and one composite
+    "A": ["String", "Kind!", "Sub", "Boolean"],
+    "B": ["Date", "[Kind]", "Uni", "[ID!]"],
+}
+
+
+def make_schema(assign, reason_shift=0, tset="A"):
     """assign: tuple of 4 in {0 current, 1 deprecated, 2 deprecated with reason}."""
     deps = []
     r = reason_shift
@@ -33,12 +40,13 @@ def make_schema(assign, reason_shift=0):
         else:
             deps.append((REASONS[r % len(REASONS)],))
             r += 1
-    tf = [gql.FieldDef("f%d" % i, ["String", "Int!", "Sub", "Boolean"][i], dep=deps[i]) for i in range(4)]
-    gf = [gql.FieldDef("g%d" % i, ["String", "Int!", "Sub", "Boolean"][i], dep=deps[i]) for i in range(4)]
+    tf = [gql.FieldDef("f%d" % i, TYPE_SETS[tset][i], dep=deps[i]) for i in range(4)]
+    gf = [gql.FieldDef("g%d" % i, TYPE_SETS[tset][i], dep=deps[i]) for i in range(4)]
     # the implementor repeats the interface's fields, not deprecated there
-    tg = [gql.FieldDef("g%d" % i, ["String", "Int!", "Sub", "Boolean"][i]) for i in range(4)]
+    tg = [gql.FieldDef("g%d" % i, TYPE_SETS[tset][i]) for i in range(4)]
     schema = gql.Schema([
         gql.obj("Sub", [("x", "Int")]),   # field 2 is object-typed: a deprecated composite field has a sub-selection
+        gql.enum("Kind", ["K1", "K2"]), gql.scalar("Date"), gql.union("Uni", ["Sub"]),
         gql.iface("IF", gf),
         gql.obj("T", tf + tg + [gql.FieldDef("keep", "Int")], ["IF"]),
         gql.obj("Q", [("t", "T"), ("i", "IF")]),
@@ -46,24 +54,28 @@ def make_schema(assign, reason_shift=0):
     return schema, deps
 
 
-def F(name, alias=None):
-    """Selection of field `name` (fields f2 / g2 are object-typed)."""
-    return Field(name, [Field("x")] if name.endswith("2") else None, alias=alias)
+def F(name, alias=None, tset="A"):
+    """Selection of field `name` (fields f2 / g2 are composite)."""
+    if name.endswith("2"):
+        return Field(name, [Field("x")] if tset == "A" else [TN(), Inline("Sub", [Field("x")])], alias=alias)
+    return Field(name, None, alias=alias)
 
 
-def make_doc(style):
+def make_doc(style, tset="A"):
+    global _TSET
+    _TSET = tset
     fs = ["f%d" % i for i in range(4)]
     if style == "direct":
-        return Doc([Op("query", "Op", [Field("t", [F(f) for f in fs] + [Field("keep")])])]), "OpT", {f: f for f in fs}, ["t"]
+        return Doc([Op("query", "Op", [Field("t", [F(f, tset=tset) for f in fs] + [Field("keep")])])]), "OpT", {f: f for f in fs}, ["t"]
     if style == "aliased":
-        return Doc([Op("query", "Op", [Field("t", [F(f, alias="a" + f) for f in fs] + [Field("keep")])])]), "OpT", {f: "a" + f for f in fs}, ["t"]
+        return Doc([Op("query", "Op", [Field("t", [F(f, alias="a" + f, tset=tset) for f in fs] + [Field("keep")])])]), "OpT", {f: "a" + f for f in fs}, ["t"]
     if style == "fragment":
-        return Doc([FragDef("Frag", "T", [F(f) for f in fs] + [Field("keep")]),
+        return Doc([FragDef("Frag", "T", [F(f, tset=tset) for f in fs] + [Field("keep")]),
                     Op("query", "Op", [Field("t", [Spread("Frag")])])]), "Frag", {f: f for f in fs}, ["t"]
     if style == "variant":
-        return Doc([Op("query", "Op", [Field("i", [TN(), Inline("T", [F(f) for f in fs] + [Field("keep")])])])]), "OpIOnT", {f: f for f in fs}, ["i"]
+        return Doc([Op("query", "Op", [Field("i", [TN(), Inline("T", [F(f, tset=tset) for f in fs] + [Field("keep")])])])]), "OpIOnT", {f: f for f in fs}, ["i"]
     gs = ["g%d" % i for i in range(4)]
-    return Doc([Op("query", "Op", [Field("i", [TN()] + [F(g) for g in gs])])]), "OpI", {("f%d" % i): gs[i] for i in range(4)}, ["i"]
+    return Doc([Op("query", "Op", [Field("i", [TN()] + [F(g, tset=tset) for g in gs])])]), "OpI", {("f%d" % i): gs[i] for i in range(4)}, ["i"]
 
 
 def find_struct(items, name):
@@ -107,8 +119,10 @@ def dep_attr(f):
     return None
 
 
-def sample_value(i):
-    return ["s", 3, {"x": 1}, True][i]
+def sample_value(i, tset="A"):
+    if tset == "B":
+        return ["2020-01-01", ["K1", None], {"__typename": "Sub", "x": 1}, ["a", 7]][i]
+    return ["s", "K1", {"x": 1}, True][i]
 
 
 def run(tier):
@@ -119,6 +133,12 @@ def run(tier):
             for style in STYLES:
                 for strat in STRATEGIES:
                     cases.append({"assign": assign, "fmt": fmt, "style": style, "strategy": strat, "shift": sum(assign) % 4})
+    # the second type set (custom scalar, list of enum, union, list of ID) for the strategies that act on the attribute
+    for assign in itertools.product((0, 1, 2), repeat=4):
+        for fmt in ("sdl", "json"):
+            for style in ("direct", "fragment", "variant"):
+                for strat in ("warn", "deny"):
+                    cases.append({"assign": assign, "fmt": fmt, "style": style, "strategy": strat, "shift": sum(assign) % 4, "tset": "B"})
     # every reason on every field position once more (full reason alphabet on one field)
     for pos in range(4):
         for ri in range(len(REASONS)):
@@ -128,9 +148,9 @@ def run(tier):
                 cases.append({"assign": tuple(a), "fmt": fmt, "style": "direct", "strategy": "warn", "shift": ri})
     reqs = []
     for c in cases:
-        schema, deps = make_schema(c["assign"], c["shift"])
+        schema, deps = make_schema(c["assign"], c["shift"], c.get("tset", "A"))
         c["deps"] = deps
-        doc, holder, wires, path = make_doc(c["style"])
+        doc, holder, wires, path = make_doc(c["style"], c.get("tset", "A"))
         c["doc"], c["holder"], c["wires"], c["path"] = doc, holder, wires, path
         text = schema.sdl() if c["fmt"] == "sdl" else schema.introspection()
         opts = dict(DEFAULT_OPTS)
@@ -147,7 +167,7 @@ def run(tier):
     farm = Farm("c14")
     for c, r in zip(cases, resps):
         states += 1
-        label = {"assignment": c["assign"], "format": c["fmt"], "style": c["style"], "strategy": c["strategy"] or "<unset>",
+        label = {"assignment": c["assign"], "format": c["fmt"], "style": c["style"], "strategy": c["strategy"] or "<unset>", "field_types": TYPE_SETS[c.get("tset", "A")],
                  "query": gql.render_doc(c["doc"])}
         c["label"] = label
         if r["status"] != "ok":
@@ -196,7 +216,7 @@ def run(tier):
         take = c["fmt"] == "sdl" and (strat == "deny" or (strat == "warn" and c["strategy"] is None)) and \
             (tier == "thorough" or (sum(x * 3 ** i for i, x in enumerate(c["assign"])) % 4 == 0))
         if take:
-            c["case"] = farm.add(Case(r["tokens"], [("op", "Op")]))
+            c["case"] = farm.add(Case(r["tokens"], [("op", "Op")], prelude="pub type Date = String;"))
     rb = resps[-1]
     if rb["status"] == "ok":
         st = find_struct(rb["items"], "OpT")
@@ -220,7 +240,7 @@ def run(tier):
             continue
         inner = {"keep": 1}
         for i in range(4):
-            inner[c["wires"]["f%d" % i]] = sample_value(i)
+            inner[c["wires"]["f%d" % i]] = sample_value(i, c.get("tset", "A"))
         if c["style"] in ("variant", "interface"):
             inner["__typename"] = "T"
             if c["style"] == "interface":
